@@ -161,4 +161,161 @@ theorem parsePatternL_mem : ∀ (n : Nat) (raw pre suf : List Char), raw.length 
           · exact List.mem_cons_of_mem _ (hrec (Or.inl e'))
         · exact List.mem_cons_of_mem _ (hrec (Or.inr e))
 
+/-! ## the `.gz` decision on the typed pattern -/
+
+theorem endsWithL_iff_suffix (l g : List Char) : endsWithL l g = true ↔ g <:+ l := by
+  unfold endsWithL
+  constructor
+  · intro h
+    simp only [Bool.and_eq_true, beq_iff_eq, decide_eq_true_eq] at h
+    rw [← h.1]; exact List.drop_suffix _ _
+  · rintro ⟨t, rfl⟩
+    simp
+
+theorem literalL_nopct : ∀ (n : Nat) (l s : List Char), l.length ≤ n → literalL l = some s → '%' ∉ s → l = s := by
+  intro n
+  induction n with
+  | zero =>
+    intro l s hl h _
+    have : l = [] := List.length_eq_zero_iff.mp (Nat.le_zero.mp hl)
+    subst this
+    simp [literalL] at h
+    exact h.symm
+  | succ n ih =>
+    intro l s hl h hs
+    cases l with
+    | nil => simp [literalL] at h; exact h.symm
+    | cons c t =>
+      unfold literalL at h
+      by_cases hc : c = '%'
+      · simp only [hc, if_true] at h
+        cases t with
+        | nil => simp at h
+        | cons d t' =>
+          by_cases hd : d = '%'
+          · simp only [hd, if_true, Option.map_eq_some_iff] at h
+            obtain ⟨s', _, rfl⟩ := h
+            exact absurd List.mem_cons_self hs
+          · simp [hd] at h
+      · simp only [hc, if_false, Option.map_eq_some_iff] at h
+        obtain ⟨s', hs', rfl⟩ := h
+        rw [ih t s' (by simp only [List.length_cons] at hl; omega) hs' (fun m => hs (List.mem_cons_of_mem _ m))]
+
+theorem literalL_of_nopct : ∀ (l : List Char), '%' ∉ l → literalL l = some l := by
+  intro l
+  induction l with
+  | nil => intro _; simp [literalL]
+  | cons c t ih =>
+    intro h
+    have hc : c ≠ '%' := fun e => h (e ▸ List.mem_cons_self)
+    unfold literalL
+    simp [hc, ih (fun m => h (List.mem_cons_of_mem _ m))]
+
+/-- `%%` ↦ `%` does not change whether the text ends with `.gz` -/
+theorem literalL_gz : ∀ (n : Nat) (l s : List Char), l.length ≤ n → literalL l = some s →
+    (gzSuffix <:+ l ↔ gzSuffix <:+ s) := by
+  intro n
+  induction n with
+  | zero =>
+    intro l s hl h
+    have : l = [] := List.length_eq_zero_iff.mp (Nat.le_zero.mp hl)
+    subst this
+    simp [literalL] at h
+    subst h
+    exact Iff.rfl
+  | succ n ih =>
+    intro l s hl h
+    cases l with
+    | nil => simp [literalL] at h; subst h; exact Iff.rfl
+    | cons c t =>
+      unfold literalL at h
+      by_cases hc : c = '%'
+      · simp only [hc, if_true] at h
+        cases t with
+        | nil => simp at h
+        | cons d t' =>
+          by_cases hd : d = '%'
+          · simp only [hd, if_true, Option.map_eq_some_iff] at h
+            obtain ⟨s', hs', rfl⟩ := h
+            have ih' := ih t' s' (by simp only [List.length_cons] at hl; omega) hs'
+            subst hc; subst hd
+            rw [List.suffix_cons_iff, List.suffix_cons_iff, List.suffix_cons_iff, ih']
+            simp [gzSuffix]
+          · simp [hd] at h
+      · simp only [hc, if_false, Option.map_eq_some_iff] at h
+        obtain ⟨s', hs', rfl⟩ := h
+        have ih' := ih t s' (by simp only [List.length_cons] at hl; omega) hs'
+        rw [List.suffix_cons_iff, List.suffix_cons_iff, ih']
+        have key : gzSuffix = c :: t ↔ gzSuffix = c :: s' := by
+          constructor
+          · intro e
+            have et : t = ['g', 'z'] := by simp [gzSuffix] at e; exact e.2.symm
+            subst et
+            have : literalL ['g', 'z'] = some ['g', 'z'] := literalL_of_nopct _ (by decide)
+            rw [this] at hs'
+            rw [← Option.some.inj hs']; exact e
+          · intro e
+            have es : s' = ['g', 'z'] := by simp [gzSuffix] at e; exact e.2.symm
+            subst es
+            have := literalL_nopct t.length t _ (Nat.le_refl _) hs' (by decide)
+            rw [this]; exact e
+        rw [key]
+
+/-- `prefix%stext` ends with `.gz` iff `text` does -/
+theorem gz_after_verb (a b : List Char) : gzSuffix <:+ a ++ '%' :: 's' :: b ↔ gzSuffix <:+ b := by
+  rw [← List.reverse_prefix, ← List.reverse_prefix (l₂ := b)]
+  simp only [List.reverse_append, List.reverse_cons, gzSuffix, List.reverse_nil, List.nil_append, List.cons_append,
+    List.append_assoc]
+  generalize b.reverse = rb
+  rcases rb with _ | ⟨x, _ | ⟨y, _ | ⟨z, w⟩⟩⟩ <;> simp [List.cons_prefix_cons]
+
+/-- an accepted pattern is `text %s text'`, the text after the verb being the literal suffix -/
+theorem parsePatternL_split : ∀ (n : Nat) (raw pre suf : List Char), raw.length ≤ n →
+    parsePatternL raw = some (pre, suf) → ∃ a b, raw = a ++ '%' :: 's' :: b ∧ literalL b = some suf := by
+  intro n
+  induction n with
+  | zero =>
+    intro raw pre suf hl h
+    have : raw = [] := List.length_eq_zero_iff.mp (Nat.le_zero.mp hl)
+    subst this
+    simp [parsePatternL] at h
+  | succ n ih =>
+    intro raw pre suf hl h
+    cases raw with
+    | nil => simp [parsePatternL] at h
+    | cons c t =>
+      unfold parsePatternL at h
+      by_cases hc : c = '%'
+      · simp only [hc, if_true] at h
+        cases t with
+        | nil => simp at h
+        | cons d t' =>
+          by_cases hd : d = '%'
+          · simp only [hd, if_true, Option.map_eq_some_iff, Prod.mk.injEq] at h
+            obtain ⟨p, hp, _, rfl⟩ := h
+            obtain ⟨a, b, e, hb⟩ := ih t' p.1 p.2 (by simp only [List.length_cons] at hl; omega) hp
+            exact ⟨c :: d :: a, b, by rw [e]; rfl, hb⟩
+          · by_cases hs : d = 's'
+            · have hne : ('s' : Char) ≠ '%' := by decide
+              simp only [hs, hne, if_true, if_false, Option.map_eq_some_iff, Prod.mk.injEq] at h
+              obtain ⟨s', hs', _, rfl⟩ := h
+              exact ⟨[], t', by rw [hc, hs]; rfl, hs'⟩
+            · simp [hd, hs] at h
+      · simp only [hc, if_false, Option.map_eq_some_iff, Prod.mk.injEq] at h
+        obtain ⟨p, hp, _, rfl⟩ := h
+        obtain ⟨a, b, e, hb⟩ := ih t p.1 p.2 (by simp only [List.length_cons] at hl; omega) hp
+        exact ⟨c :: a, b, by rw [e]; rfl, hb⟩
+
+/-- **the decision "the pattern ends with `.gz`"** — `strings.HasSuffix` on the pattern as it is typed — **is
+the one the model takes** on `prefix%ssuffix` after `%%` has been read as `%` -/
+theorem parsePatternL_gz (raw pre suf : List Char) (h : parsePatternL raw = some (pre, suf)) :
+    endsWithL raw gzSuffix = endsWithL (patternL pre suf) gzSuffix := by
+  obtain ⟨a, b, e, hb⟩ := parsePatternL_split raw.length raw pre suf (Nat.le_refl _) h
+  have h1 : gzSuffix <:+ raw ↔ gzSuffix <:+ patternL pre suf := by
+    rw [e, gz_after_verb a b, literalL_gz b.length b suf (Nat.le_refl _) hb]
+    unfold patternL
+    rw [gz_after_verb pre suf]
+  rw [Bool.eq_iff_iff, endsWithL_iff_suffix, endsWithL_iff_suffix]
+  exact h1
+
 end ObiVerif.Distribute
